@@ -144,6 +144,28 @@ MACRO_OUT = {"MChain": "out", "MFork": "out", "MMulti": "out", "MHand": "out", "
              "MUnused": "out", "MDeep": "out"}
 
 
+_POOLS: dict = {}
+
+
+def pool_factory(name="shared", workers=1):
+    """an executor FACTORY FUNCTION (module level, pickled by reference): the documented way of letting
+    several nodes share one executor through instructions `(callable, args, kwargs)`"""
+    if name not in _POOLS:
+        _POOLS[name] = ThreadPoolExecutor(max_workers=workers)
+    return _POOLS[name]
+
+
+def _set_exec(node, kind):
+    if kind == "instr":
+        node.executor = (ThreadPoolExecutor, (), {})
+    elif kind == "factory":
+        node.executor = (pool_factory, ("shared",), {})
+    elif kind == "factory_kw":
+        node.executor = (pool_factory, (), {"name": "other", "workers": 2})
+    elif kind == "live":
+        node.executor = ThreadPoolExecutor(max_workers=1)
+
+
 def _local_lin():
     from pyiron_workflow.nodes.function import as_function_node
 
@@ -266,11 +288,7 @@ def build_graph(g):
     if not g["auto"]:
         wf.starting_nodes = [ch[i] for i in g.get("start", [])]
     for i, nd in enumerate(g["nodes"]):
-        ex = nd.get("exec")
-        if ex == "instr":
-            ch[i].executor = (ThreadPoolExecutor, (), {})
-        elif ex == "live":
-            ch[i].executor = ThreadPoolExecutor(max_workers=1)
+        _set_exec(ch[i], nd.get("exec"))
     return wf, ch
 
 
@@ -319,7 +337,7 @@ def _exe(n):
         return []
     if isinstance(e, Executor):
         return ["live"]
-    return ["instr", getattr(e[0], "__name__", "?"), len(e[1]), len(e[2])]
+    return ["instr", getattr(e[0], "__name__", "?"), encv(list(e[1])), encv(dict(e[2]))]
 
 
 def snap(n, listed_by=None):
@@ -422,6 +440,8 @@ def prepare_state(case):
             n.failed = bool(op[2])
         elif op[0] == "recv":
             n.signals.input.accumulate_and_run.received_signals.update(op[2])
+        elif op[0] == "exec":
+            _set_exec(n, op[2])
     return root, at_path(root, case.get("target", []))
 
 
@@ -1018,9 +1038,11 @@ def gen_graph(rng, flavour, backend):
         else:
             nd = {"l": lab, "t": "lin", "k": rng.randint(1, 60), "ins": _gen_ins(rng, i, n, 1, auto)}
         ex = rng.random()
-        if ex < 0.08:
+        if ex < 0.06:
             nd["exec"] = "instr"
-        elif ex < 0.12 and nd["t"] == "lin":
+        elif ex < 0.12:
+            nd["exec"] = rng.choice(["factory", "factory", "factory_kw"])
+        elif ex < 0.16 and nd["t"] == "lin":
             nd["exec"] = "live"
         ns.append(nd)
     # tolist / for consume lists or ints; keep the data they receive harmless: a for-loop's iterated input is constant
@@ -1089,6 +1111,10 @@ def gen_rt(rng):
         for j in range(len(p) + 1):
             if rng.random() < 0.85:
                 post.append(["running", p[:j], True])
+    if rng.random() < 0.25:
+        # executor instructions (class based, factory function, live) on top-level nodes and on nodes nested in macros
+        for p in rng.sample(paths + deep + deep, min(len(paths + deep + deep), rng.choice([1, 1, 2]))):
+            post.append(["exec", p, rng.choice(["instr", "factory", "factory", "factory_kw", "live"])])
     if deep and rng.random() < 0.1:
         # a direct edit below a value link
         linked_in = {"MChain": (["p"], "a"), "MFork": (["p"], "b"), "MMulti": (["q"], "a"), "MHand": (["p"], "a"),
